@@ -1075,6 +1075,9 @@ decl(struct scope *s, struct func *f)
 					tentativedefnsend = &d->next;
 				}
 				break;
+			} else if (d->defined) {
+				/* thread-local objects are defined when first declared */
+				break;
 			}
 			defineobj(d, init, hasinit, f);
 			break;
